@@ -38,7 +38,8 @@ class _VirtualSelector(selectors.DefaultSelector):
                 when = sched[0]._when
                 if abs(when - new) < 1e-9:
                     new = when
-            loop._vtime = new
+            # timer lateness: a real loop wakes a sleeper slightly after its deadline, never exactly on it
+            loop._vtime = new + loop._rv_lateness
         return []
 
 
@@ -73,6 +74,7 @@ class VirtualLoop(asyncio.SelectorEventLoop):
         super().__init__(sel)
         sel.vloop = self
         self._vtime = 0.0
+        self._rv_lateness = 0.0
         self._rv_create_future_code = None
         self.rec_futures = []
         try:
@@ -150,11 +152,13 @@ def clock_selftest():
     return res == (True, True, False) and (_time.monotonic() - w0) < 1.0
 
 
-def run(coro, debug=False):
-    """Run `coro` to completion on a fresh VirtualLoop; returns its result."""
+def run(coro, debug=False, lateness=0.0):
+    """Run `coro` to completion on a fresh VirtualLoop; returns its result. `lateness`: seconds by which every
+    timer fires after its deadline (0 = exactly on it, which no real loop does)."""
     global _CURRENT
     patch_clock()
     loop = VirtualLoop()
+    loop._rv_lateness = lateness
     prev = _CURRENT
     _CURRENT = loop
     asyncio.set_event_loop(loop)
